@@ -8,6 +8,7 @@ pub mod c04;
 pub mod c05;
 pub mod c06;
 pub mod c07;
+pub mod c08;
 pub mod c09;
 pub mod c10;
 pub mod c11;
@@ -48,6 +49,7 @@ pub fn dispatch(id: &str, tier: Tier, replay: Option<&str>) {
         "c05" => c05::run(tier, replay),
         "c06" => c06::run(tier, replay),
         "c07" => c07::run(tier, replay),
+        "c08" => c08::run(tier, replay),
         "c09" => c09::run(tier, replay),
         "c10" => c10::run(tier, replay),
         "c11" => c11::run(tier, replay),
